@@ -311,9 +311,10 @@ theorem poll_sites : Gen.pollAtTop = [("cmplEvaluateNodeExpression", true), ("cm
 theorem poll_keeps_labels : Gen.stmtPollKeepsLabels = true := by decide
 
 /-- the model's `haltHere` / `catching` is the code: each of the three polls hands the received function to
-    `rt.interrupt`; `interrupt` is `halting := true; defer func(){ rt.halting = halting }(); function();
-    halting = false` (so rt.halting is true exactly when the function panicked); and the deferred function of
-    tryCatchEvaluate begins with `if rt.halting { return }`, before it calls recover() -/
+    `rt.interrupt`; `interrupt` is `defer func(){ if c := recover(); c != nil { rt.halting, rt.haltValue = true, c;
+    panic(c) } }(); function()` (so rt.halting/haltValue say that, and with what, the function panicked); and the
+    deferred function of tryCatchEvaluate is `if c := recover(); c != nil { if rt.halting { if samePanic(c,
+    rt.haltValue) { panic(c) } … } … }`: that very value is passed on before anything else is done with it -/
 theorem halt_not_recovered : Gen.interruptPolls = 3 ∧ Gen.pollsRunInterrupt = true ∧
     Gen.interruptNotesPanic = true ∧ Gen.tryLetsHaltPass = true := by decide
 
